@@ -683,6 +683,25 @@ def check_C12(ctx):
                      b.add('EQ %s %s' % (sx.to_sx(e), sx.to_sx(f))),
                      b.add('EQ %s %s' % (sx.to_sx(f), sx.to_sx(e))),
                      b.add('EQX %s %s %s' % (sx.to_sx(e), sx.to_sx(f), sx.to_sx(g)))))
+    # parameters next to special values: a constructor or comparison that snaps a base to e (or 2, 10, 1/2), or a
+    # constant to a nearby round value, makes numerically different objects equal
+    specials = [E, 2.0, 10.0, 0.5, 3.0, 1.0000000001]
+    for s0 in specials:
+        near = [s0 * (1 + d) for d in (1e-10, -1e-10, 3e-12, -1e-13, 1e-15)] + [math.nextafter(s0, math.inf), math.nextafter(s0, -math.inf)]
+        near = [y for y in dict.fromkeys(near) if y != s0 and y > 0 and y != 1]
+        for _ in range(sizes(tier, 2, 12)):
+            inner = gen.rexpr(rng, rng.randint(1, 4), [2, 3])
+            h = rng.choice(['Exp', 'Log'])
+            y1, y2 = rng.choice(near), rng.choice(near)
+            for a_, c_ in (((h, inner, s0), (h, inner, y1)), ((h, inner, y1), (h, inner, y2)),
+                           (('Mul', [('C', s0), inner]), ('Mul', [('C', y1), inner]))):
+                if sx.to_sx(a_) == sx.to_sx(c_):
+                    continue
+                g = respell(rng, c_)
+                recs.append((a_, c_, g, 'mutated',
+                             b.add('EQ %s %s' % (sx.to_sx(a_), sx.to_sx(c_))),
+                             b.add('EQ %s %s' % (sx.to_sx(c_), sx.to_sx(a_))),
+                             b.add('EQX %s %s %s' % (sx.to_sx(a_), sx.to_sx(c_), sx.to_sx(g)))))
     # points
     prec = []
     for _ in range(n // 4):
@@ -802,6 +821,11 @@ def check_C13(ctx):
             rep.oracle_fail('two unequal expressions print identically: %s' % b.impl[idx['INJ']], b, [idx['INJ']])
     if b.impl[nums] != 'ok':
         rep.oracle_fail('repr of a finite number does not read back equal: %s' % b.impl[nums], b, [nums])
+    b4 = Batch()
+    nrt = b4.add('NAMERT')
+    b4.run(model=False)
+    if b4.impl[nrt] != 'ok':
+        rep.oracle_fail('printed names: %s' % b4.impl[nrt], b4, [nrt])
     rep.stats['number_literals_round_tripped'] = sizes(tier, 2000, 50000)
     return rep
 
@@ -869,6 +893,11 @@ def check_C14(ctx):
                     r, 'accepted' if acc else 'rejected', nv), b, [idx[r]])
     if b.impl[names] != 'ok':
         rep.oracle_fail('variable names: %s' % b.impl[names], b, [names])
+    be_ = Batch()
+    err = be_.add('ERRCLASSES')
+    be_.run(model=False)
+    if be_.impl[err] != 'ok':
+        rep.oracle_fail('exception classes: %s' % be_.impl[err], be_, [err])
     # the same on USED objects: a call that stopped half-way with CoordinateMissing (or DomainError), then a
     # call at a point with other coordinates; every answer against the pure model
     history_correspondence(ctx, rep, sizes(tier, 300, 5000), ('at', 'located', 'pat', 'dat', 'dfat', 'dfcompat'),
@@ -1057,6 +1086,10 @@ def check_C18(ctx):
         qs = sx.point_sx(q)
         lines += ['EVAL %s %s' % (qs, es), 'REV %s %s' % (qs, es), 'DIFFAT %s %s' % (qs, es), 'DEARLYALL %s %s' % (qs, es),
                   'DEARLYAT %d %s %s' % (v, qs, es), 'PEARLY %d %s %s' % (v, qs, es), 'FWD %d %s %s' % (v, qs, es)]
+        # the TEXT of the exception too (which coordinate is reported missing, which constraint failed) must not
+        # depend on the order in which a set is visited: compared across processes only
+        lines += ['MSG EVAL %s %s' % (qs, es), 'MSG REV %s %s' % (qs, es), 'MSG DIFFAT %s %s' % (qs, es),
+                  'MSG DEARLYALL %s %s' % (qs, es), 'MSG FWD %d %s %s' % (v, qs, es)]
         lines.append('LOCHASH %s %s %s' % (sx.point_sx(perms[0]), sx.point_sx(perms[1]), es))
         if len(ids) == 1:
             lines += ['ATNUM %s %s' % (sx.num_sx(1.5), es), 'DERIVNUM %s %s' % (sx.num_sx(1.5), es)]
@@ -1084,6 +1117,9 @@ def check_C18(ctx):
             rep.oracle_failures.append({'what': 'outcome depends on the hash seed / process: %s' % outs,
                                         'lines': [(l, base[i], model[i])], 'kf': None,
                                         'extra': {'hashseeds': [str(s) for s in seeds]}})
+        if l.startswith('MSG '):
+            rep.stats['exception_texts_compared'] += 1
+            continue
         if l.startswith('LOCHASH'):
             if base[i] != 'ok':
                 rep.oracle_failures.append({'what': 'set/dict membership depends on how the point was written: %s' % base[i],
@@ -1108,6 +1144,10 @@ def check_C18(ctx):
                                         'lines': [(lines[i], base[i], model[i]) for i in idxs], 'kf': None})
     rep.digests = digests
     rep.stats.update({'digest_' + k: 1 for k in set(digests.values())})
+    # "the same expression and point always produce the same outcome": also on objects that were used before
+    history_correspondence(ctx, rep, sizes(tier, 120, 2500),
+                           ('at', 'located', 'pat', 'dat', 'dfat', 'dfcompat', 'pexpr', 'dexpr', 'dfcompexpr'),
+                           maxlen=sizes(tier, 10, 24), what='sequence', disturb=())
     return rep
 
 
